@@ -300,6 +300,35 @@ def _same(a, b):
     return bool(set(a.split('|')) & set(b.split('|')))
 
 
+def _is_len(t):
+    return t.startswith('len(') and t.endswith(')') and _balanced(t[4:-1])
+
+
+def writer_length_order(items, p0='self'):
+    """The fields the writer's length prefixes count, in the order the prefixes are emitted."""
+    out = []
+    for it in merge_consts(items):
+        t = it[2] if it[0] == 'INT' else it[1] if it[0] == 'BYTE' else None
+        if t is not None and _is_len(t):
+            out.append(_fields_of(t, p0))
+    return out
+
+
+def reader_length_order(reads, p0='self'):
+    """The fields whose widths the reader takes from its length reads, in stream order of those length reads; None when two length
+    reads denote the same text (a slice/delete ladder reads every length at the front of the buffer) and cannot be told apart."""
+    lens = [r for r in reads if r.kind in ('fixed', 'fixed-skip') and not (r.target or '').startswith(p0 + '.')]
+    texts = [r.post or r.text for r in lens]
+    if len(set(texts)) != len(texts):
+        return None
+    out = []
+    for r, t in zip(lens, texts):
+        used = [x for x in reads if x is not r and x.width == t and (x.target or '').startswith(p0 + '.')]
+        if used:
+            out.append(_fields_of(' '.join([used[0].target] + list(used[0].also)), p0))
+    return out
+
+
 def writer_fields(items, p0='self'):
     out = []
     for it in merge_consts(items):
@@ -307,9 +336,10 @@ def writer_fields(items, p0='self'):
         if k == 'C':
             out.append((None, str(len(it[1]))))
         elif k == 'INT':
-            out.append((_fields_of(it[2], p0), it[1]))
+            # a length prefix is not the field it counts: it pairs with the reader's (unnamed) length read - see length_pairing
+            out.append((None if _is_len(it[2]) else _fields_of(it[2], p0), it[1]))
         elif k == 'BYTE':
-            out.append((_fields_of(it[1], p0), '1'))
+            out.append((None if _is_len(it[1]) else _fields_of(it[1], p0), '1'))
         elif k == 'SYM':
             if 'header.__bytearray__' in it[1] or it[1].startswith('super('):
                 out.append(('<header>', None))
@@ -374,6 +404,14 @@ def check_field_order(rep, prog, classes):
                     rep.violation('C08.c', '%s parse/__bytearray__' % c.name, 'field %s filled by %d reads, written %d time(s)' % (n, nr, nw),
                                   'a field is read more often than it is written: the reader consumes octets of a neighbouring field into it',
                                   where=pf.where, expected='%d read(s) of %s' % (max(nw, 1), n), found=raw, scenario=scen)
+            # the k-th length the reader takes is the width of the field the k-th length prefix of the writer counts
+            rlo = reader_length_order(reads, rp0)
+            if rlo:
+                wlos = [writer_length_order(items, wp0) for sw, items in wps]
+                okl = any(len(w) == len(rlo) and all(a and b and _same(a, b) for a, b in zip(rlo, w)) for w in wlos) or not any(wlos)
+                rep.check(okl, 'C08.c', '%s parse/__bytearray__' % c.name, 'lengths read for %s, length prefixes written for %s' % (rlo, wlos[:1]),
+                          'the reader uses the lengths it reads for other fields than the writer emits them for: name and value (or the like) '
+                          'are cut at the wrong place', where=pf.where, expected=wlos[:1], found=rlo, scenario=scen)
             match = any(_subseq(rf, _dedupe(w)) for w in wseqs)
             rep.check(match, 'C08.c', '%s parse/__bytearray__' % c.name, 'reader fields %s vs writer fields %s' % (rf, [_dedupe(w) for w in wseqs][:2]),
                       'the reader fills the fields in an order the writer does not emit them in: own output does not re-parse to the same values',
